@@ -996,6 +996,69 @@ def _generic_propagation(model, rep):
                  fn.lineno)
 
 
+def _count_dispatch(model, rep):
+    """Mesh.refined(times_or_ix): a count means uniform passes, anything
+    else the set of cells to refine adaptively.  A NumPy integer (the loop
+    variable of 'for k in np.arange(1, 4)', the result of an integer
+    computation) is a count: taken for an index it refines *cell k*
+    adaptively and returns a mesh with a handful of extra cells.  The
+    dispatching test is evaluated for a Python int, a NumPy integer scalar,
+    a list and an array."""
+    R4 = "C12-R4"
+    mcls = model.cls("skfem.mesh.mesh", "Mesh")
+    fn = mcls.methods["refined"]
+    par = fn.params()[1]
+    tests = [n for n in walk_no_nested(fn.node) if isinstance(n, ast.If)
+             and any(isinstance(x, ast.Name) and x.id == par
+                     for x in ast.walk(n.test))
+             and any(isinstance(c, ast.Call) and src(c.func) == f"m.{'_'}uniform"
+                     or (isinstance(c, ast.Attribute) and c.attr == "_uniform")
+                     for b in n.body for c in ast.walk(b))]
+    if len(tests) != 1:
+        raise AnalysisError("Mesh.refined: the count / index dispatch was "
+                            "not found")
+    test = tests[0].test
+
+    class NpInt:
+        """a NumPy integer scalar"""
+        skv_types = ("numpy.integer", "numpy.int64", "numpy.signedinteger",
+                     "numpy.number", "numpy.generic", "numbers.Integral")
+
+    class NpArr:
+        skv_isarray = True
+        skv_types = ("numpy.ndarray",)
+
+    def hook(interp, name, args, kwargs, node):
+        if name in ("numpy.isscalar",):
+            return not isinstance(args[0], (list, NpArr))
+        if name == "numpy.ndim":
+            return 1 if isinstance(args[0], (list, NpArr)) else 0
+        if name == "numpy.issubdtype":
+            return isinstance(args[0], NpInt)
+        return NotImplemented
+    cases = [("Python int", 2, True), ("NumPy integer", NpInt(), True),
+             ("list of cells", [0, 3], False), ("index array", NpArr(),
+                                                False)]
+    got = {}
+    for label, val, want in cases:
+        try:
+            v = Interp(model, call_hook=hook).eval(test, {par: val},
+                                                   fn.module)
+        except (Unsupported, Raised) as e:
+            raise AnalysisError(f"Mesh.refined dispatch on {label}: {e}")
+        got[label] = bool(v)
+    bad = [lbl for lbl, _, want in cases if got[lbl] != want]
+    cons = "Mesh.refined:count-or-cells"
+    if not bad:
+        rep.ok(R4, cons, f"'{src(test)}' takes Python and NumPy integers "
+                         f"for counts, lists and arrays for cells")
+    else:
+        rep.fail(R4, fn.path, "Mesh.refined", cons,
+                 f"'{src(test)}' classifies {got}: {bad} go the wrong way "
+                 f"- refined(np.int64(2)) refines cell 2 adaptively instead "
+                 f"of performing two uniform passes", test.lineno)
+
+
 def _r4_warnings(model, rep):
     R4 = "C12-R4"
     fn = model.func("skfem.mesh.mesh", "Mesh.refined")
@@ -1082,6 +1145,7 @@ def run(model: Model, rep, tier: str) -> None:
         if clsname in ("MeshTri1", "MeshQuad1"):
             _last_writer(rep, "C12-R3", clsname, fn)
     _line_uniform(model, rep)
+    _count_dispatch(model, rep)
     _r4_warnings(model, rep)
     rep.require_min("C12-R1", 10)
     rep.require_min("C12-R2", 5)
@@ -1096,6 +1160,9 @@ _LI = "skfem/mesh/mesh_line_1.py"
 _ME = "skfem/mesh/mesh.py"
 _T2 = "skfem/mesh/mesh_tet_2.py"
 MUTANTS = [
+    ("refined() takes only Python ints for counts",
+     (_ME, "        if isinstance(times_or_ix, (int, np.integer)):",
+      "        if isinstance(times_or_ix, int):"), "C12-R4"),
     ("second-order tetrahedra refine without handing over the subdomains",
      (_T2, "        m = replace(MeshTet1.from_mesh(self),\n"
       "                    _subdomains=self._subdomains).refined()\n"
@@ -1198,6 +1265,9 @@ MUTANTS = [
       "        has_boundaries = self.boundaries is None\n"), "C12-R4"),
 ]
 TWINS = [
+    ("refined() recognises counts by their dimension",
+     (_ME, "        if isinstance(times_or_ix, (int, np.integer)):",
+      "        if np.ndim(times_or_ix) == 0:")),
     ("second-order triangles hand their subdomains to MeshTri1 as well",
      ("skfem/mesh/mesh_tri_2.py",
       "        return MeshTri2.from_mesh(MeshTri1.from_mesh(self).refined())",
